@@ -135,8 +135,10 @@ class Oracle:
             self.arrs[t[1]] = r
             return ("arr", r)
         exp = self.expect(t)
-        if exp is not None and exp[0] == "arr" and op not in ("setitem", "setvalues"):
+        if exp is not None and exp[0] == "arr":
             self.arrs[t[1]] = exp[1]
+        elif op in ("setitem", "setvalues") and exp is None:
+            self.arrs.pop(t[1], None)    # unknown state after an operation without expectation
         return exp
 
     # ------------------------------------------------------------------
@@ -254,7 +256,149 @@ class Oracle:
         if op == "copy":
             x = A.get(t[2])
             return ("arr", Ref(list(x.dims), dict(x.data))) if x else None
+        if op == "getitem":
+            x = A.get(t[2])
+            if x is None:
+                return None
+            sel = self.decode_key(x, t[3])
+            if sel is None or sel == "err":
+                return ("err",) if sel == "err" else None
+            if any(s[0] == "list" for s in sel.values()):
+                return ("err",)          # reads through a list of items are refused
+            return self.read(x, sel)
+        if op == "setitem":
+            x = A.get(t[1])
+            if x is None:
+                return None
+            sel = self.decode_key(x, t[2])
+            if sel is None or sel == "err":
+                return ("err",) if sel == "err" else None
+            return self.write(x, sel, t[2], t[3])
         return None
+
+    # ------------------------------------------------------------------ indexing by label
+    def decode_key(self, x, tok):
+        """-> dict letter -> ("item", it) | ("sub", dimtuple) | ("list", [items]); "err"; None"""
+        if tok == "E":
+            return {}
+        if tok == "S":
+            return "err"
+        kind, body = tok[:2], tok[2:]
+        if kind in ("I:", "T:"):
+            items = [body] if kind == "I:" else (body.split(",") if body else [])
+            by = {}
+            for it in items:
+                holders = [d for d in x.dims if it in d[3]]
+                if len(holders) != 1:
+                    return "err"
+                by.setdefault(holders[0][0], []).append(it)
+            return {l: (("item", v[0]) if len(v) == 1 else ("list", v)) for l, v in by.items()}
+        if kind == "K:":
+            out = {}
+            if body == "":
+                return out
+            for kv in body.split(";"):
+                k, v = kv.split("=")
+                ds = [d for d in x.dims if d[0] == k or d[1] == k]
+                if not ds:
+                    return "err"
+                d = ds[0]
+                if d[0] in out:
+                    return None          # the same dimension addressed twice: no opinion
+                if v.startswith("i:"):
+                    if v[2:] not in d[3]:
+                        return "err"
+                    out[d[0]] = ("item", v[2:])
+                elif v.startswith("d:"):
+                    nd = self.dims.get(v[2:])
+                    if nd is None:
+                        return None
+                    if not set(nd[3]) <= set(d[3]):
+                        return "err"
+                    out[d[0]] = ("sub", nd)
+                elif v.startswith("l:"):
+                    its = v[2:].split(",") if v[2:] else []
+                    if any(i not in d[3] for i in its):
+                        return "err"
+                    out[d[0]] = ("list", its)
+            # a replacing Dimension whose letter is already in use: the property names no outcome
+            new_letters = [s[1][0] for s in out.values() if s[0] == "sub"]
+            remaining = [d[0] for d in x.dims if out.get(d[0], ("keep",))[0] in ("keep", "list")]
+            if len(set(new_letters + remaining)) != len(new_letters + remaining) or \
+                    any(nl in [d[0] for d in x.dims] for nl in new_letters):
+                return None
+            return out
+        return None
+
+    def region(self, x, sel):
+        """result dims and, for every result label tuple, the source label tuple"""
+        dims, maps = [], []
+        for d in x.dims:
+            s = sel.get(d[0], ("keep",))
+            if s[0] == "keep":
+                dims.append(d)
+            elif s[0] == "sub":
+                dims.append(s[1])
+            elif s[0] == "list":
+                dims.append((d[0], d[1], d[2], tuple(s[1])))
+        return dims
+
+    def source_label(self, x, sel, rdims, rlab):
+        lab = []
+        rl = [d[0] for d in rdims]
+        for d in x.dims:
+            s = sel.get(d[0], ("keep",))
+            if s[0] == "item":
+                lab.append(s[1])
+            elif s[0] == "sub":
+                lab.append(rlab[rl.index(s[1][0])])
+            else:
+                lab.append(rlab[rl.index(d[0])])
+        return tuple(lab)
+
+    def read(self, x, sel):
+        rdims = self.region(x, sel)
+        r = Ref(rdims, {})
+        for lab in r.labels():
+            r.data[lab] = x.data[self.source_label(x, sel, rdims, lab)]
+        return ("arr", r)
+
+    def write(self, x, sel, keytok, rhstok):
+        rdims = self.region(x, sel)
+        has_list = any(s[0] == "list" for s in sel.values())
+        reg = Ref(rdims, {})
+        new = Ref(list(x.dims), dict(x.data))
+        if rhstok.startswith("n:"):
+            c = pnum(rhstok[2:])
+            for lab in reg.labels():
+                new.data[self.source_label(x, sel, rdims, lab)] = c
+        elif rhstok.startswith("nd:"):
+            if keytok != "E":
+                return None              # numpy broadcasting of an ndarray into a region: no opinion
+            _, sh, vals = rhstok.split(":")
+            shape = "-" if not x.dims else ",".join(str(len(d[3])) for d in x.dims)
+            if sh != shape:
+                return ("err",)
+            vs = [pnum(v) for v in vals.split(",")] if vals else []
+            new.data = dict(zip(new.labels(), vs))
+        else:
+            y = self.arrs.get(rhstok)
+            if y is None:
+                return None
+            if has_list:
+                return None              # recorded finding D10: positional placement, no opinion here
+            rl = [d[0] for d in rdims]
+            if any(l not in y.letters for l in rl):
+                return ("err",)
+            # the source's dimensions must be the region's dimensions (same items)
+            for d in rdims:
+                if y.dims[y.letters.index(d[0])][3] != d[3]:
+                    return None
+            m = margin(y, rl)
+            for lab in reg.labels():
+                new.data[self.source_label(x, sel, rdims, lab)] = m.data[lab]
+        self.arrs_after = new
+        return ("arr", new)
 
 
 def check_case(case_lines, impl_outputs):
